@@ -283,6 +283,9 @@ def to_num(v):
         return z3.If(v, z3.IntVal(1), z3.IntVal(0))
     if isinstance(v, z3.ArithRef):
         return v
+    if is_z3(v) and v.sort() == Val:
+        # an opaque value used as a number is a boxed int (theory: unbox_int(box_int(n)) == n)
+        return z3.Function("val_unbox_int", Val, z3.IntSort())(v)
     raise Unsupported(f"number expected, got {type(v).__name__}")
 
 
@@ -291,8 +294,20 @@ def to_real(v):
     return z3.ToReal(v) if v.is_int() else v
 
 
+STR_ELEMS = {}
+
+
+def str_elem(s):
+    """The abstract element standing for the string constant `s` (all distinct)."""
+    if s not in STR_ELEMS:
+        STR_ELEMS[s] = z3.Const(f"str:{s}", Elem)
+    return STR_ELEMS[s]
+
+
 def coerce(v, sort):
     v = lift(v)
+    if isinstance(v, StrV) and sort == Elem:
+        return str_elem(v.s)
     if isinstance(v, QuotV):
         v = to_num(v)
     if not is_z3(v):
